@@ -25,6 +25,9 @@ def run_mc(work, mcs):
     """mcs: list of (module, cfg_text, workers, timeout).  Returns summed stats; raises on spec-level failure."""
     tot = {"generated": 0, "distinct": 0, "configs": []}
     for i, mc in enumerate(mcs):
+        if mc[0] == "apalache":
+            tot["configs"].append(run_apalache(work, i, mc[1], mc[2]))
+            continue
         module, cfgtxt, workers, timeout = mc[:4]
         reach = mc[4] if len(mc) > 4 else None      # reachability sanity: this "Never..." invariant must be violated
         d = work.sub("mc%d" % i)
@@ -49,6 +52,28 @@ def run_mc(work, mcs):
                                "wall_s": round(time.time() - t0, 1),
                                "constants": " ".join(l.strip() for l in cfgtxt.splitlines() if "=" in l)})
     return tot
+
+
+def run_apalache(work, i, module, steps):
+    """Inductive-invariant check with Apalache (unbounded in the integer variables): steps = [(init, inv, length)]."""
+    d = work.sub("ap%d" % i)
+    C.copy_specs(d)
+    t0 = time.time()
+    for init, inv, length in steps:
+        r = C.run(["apalache-mc", "check", "--init=" + init, "--inv=" + inv, "--length=%d" % length,
+                   "--out-dir=" + os.path.join(d, "out"), module + ".tla"], cwd=d, timeout=600)
+        if "EXITCODE: OK" not in r.stdout and "EXITCODE: ERROR (12)" not in r.stdout:
+            # the tool itself failed (not a counterexample): this complementary proof is skipped, and said so
+            shutil.rmtree(d, ignore_errors=True)
+            return {"module": module, "engine": "apalache", "skipped": "apalache-mc failed to run: " + r.stdout[-300:],
+                    "wall_s": round(time.time() - t0, 1), "constants": ""}
+        if "EXITCODE: OK" not in r.stdout:
+            shutil.rmtree(d, ignore_errors=True)
+            raise C.Inconclusive("Apalache did not discharge %s => %s (length %d) of %s (specification-level):\n%s" %
+                                 (init, inv, length, module, r.stdout[-2500:]))
+    shutil.rmtree(d, ignore_errors=True)
+    return {"module": module, "engine": "apalache", "wall_s": round(time.time() - t0, 1),
+            "constants": "inductive invariant: " + "; ".join("%s => %s, length %d" % s for s in steps)}
 
 
 def check(prop, tier, spec):
